@@ -53,6 +53,9 @@ def check_node(node, labels):
         raise Violation("depth", "%s expected %d got %r" % (here, len(path) - 1, node.depth))
     parent = node.parent
     kids = list(node.children)
+    if any(kid.parent is not node for kid in kids):
+        # the definitions are stated over ONE parent/children relation: a listed child whose parent is somebody else makes them ambiguous
+        raise Violation("structure", "%s lists a child whose parent is not this node" % here)
     if node.is_root is not (parent is None):
         raise Violation("is_root", here)
     if node.is_leaf is not (len(kids) == 0):
@@ -204,6 +207,24 @@ def check_deep(case, acc):
     acc.tag("deep_tree_cases")
 
 
+def check_hooked(case, acc):
+    """The attributes right after a call during which a hook of the moving node edited the tree itself (it detached a sibling):
+    'computed from the current links, correct immediately after any mutation' includes mutations made by hooks."""
+    from .. import mut
+
+    rec, universe = mut.make_universe(case["cls"], case["state"], "parent")
+    labels = forest.Labels(universe)
+    rec.begin_call({"evict": [[case["hook"], case["op"][1]]]})
+    exc = mut.execute(universe, case["op"])
+    fired = bool(rec.log)
+    rec.begin_call(None)
+    if isinstance(exc, Exception) and not isinstance(exc, TreeError):
+        raise Violation("structure", "%s on %s with an evicting %s hook raised %s: %s" % (case["op"], case["state"], case["hook"], type(exc).__name__, exc))
+    check_all(universe, labels, acc, triples=False)
+    acc.nontrivial(fired)
+    acc.tag("calls_with_an_evicting_hook")
+
+
 def check_wide(case, acc):
     """A node with many hundreds of children (a directory listing): every child's attributes and sibling helpers."""
     make = nodes.factory(case["cls"])
@@ -239,6 +260,8 @@ def check_wide(case, acc):
 
 
 def check_case(case, acc):
+    if case["kind"] == "hooked":
+        return check_hooked(case, acc)
     if case["kind"] == "deep":
         return check_deep(case, acc)
     if case["kind"] == "wide":
@@ -327,12 +350,19 @@ def plan(tier, seed):
     tasks = [{"engine": "enum", "max_nodes": max_nodes, "index": i, "count": nshards * 2} for i in range(nshards * 2)]
     tasks += [{"engine": "hyp", "examples": examples, "seed": seed * 1000 + i} for i in range(nshards)]
     tasks += [{"engine": "sparse-chain"}]
+    tasks += [{"engine": "hooked", "cls": cls, "n": n} for cls in ("HNM", "HLM") for n in (3, 4)]
     tasks += [{"engine": "wide", "width": w, "cls": c, "via": v} for w in ((300, 700) if tier == "quick" else (257, 300, 700, 2000)) for c, v in (("Node", "parent"), ("SlotLM", "children"), ("AnyNode", "children"))]
     tasks += [{"engine": "deep", "depth": d, "cls": c} for d in ((700, 1500) if tier == "quick" else (300, 700, 1500, 3000)) for c in ("Node", "SlotLM", "AnyNode")]
     return tasks
 
 
 def run_task(task, acc):
+    if task["engine"] == "hooked":
+        from .. import mut
+
+        n = task["n"]
+        cases = ({"kind": "hooked", "cls": task["cls"], "state": state, "op": ["parent", x, p], "hook": hook} for state, route in mut.enum_states(n, 0, 1) if route == "parent" for x in range(n) for p in [None] + list(range(n)) for hook in ("pre_detach", "post_detach", "pre_attach", "post_attach"))
+        return acc.run_enum(check_case, cases)
     if task["engine"] == "sparse-chain":
         return acc.run_enum(check_case, _sparse_chain_cases())
     if task["engine"] == "wide":
